@@ -1,2 +1,3 @@
 SPECIFICATION Spec
 INVARIANTS ReportInv
+POSTCONDITION Accepted
